@@ -313,8 +313,8 @@ def scale_shapes():
         ("or", ("or", INT, STR), ("raw", None)), ("or", ("any", (INT, STR)), ("raw", 5)), ("any", (INT, STR, ("raw", None))),
         # a parametrised user type whose printed form hides its parameter, alone, as two
         # differently parametrised alternatives of one union, next to its own narrowing subclass
-        ("mult", 3), ("pmult", 3), ("or", ("mult", 3), ("mult", 5)), ("any", (("mult", 3), ("mult", 5), NONE)),
-        ("or", ("mult", 3), ("pmult", 3)), ("or", ("pmult", 3), ("mult", 3)), ("any", (NONE, ("or", ("mult", 3), ("mult", 5)))),
+        ("mult", 3), ("nmult", 3), ("or", ("mult", 3), ("mult", 5)), ("any", (("mult", 3), ("mult", 5), NONE)),
+        ("or", ("mult", 3), ("nmult", 3)), ("or", ("nmult", 3), ("mult", 3)), ("any", (NONE, ("or", ("mult", 3), ("mult", 5)))),
         ("list", ("typed", ("or", ("mult", 3), ("mult", 5))), ()), ("dict", (("a", False, ("mult", 3)), ("b", True, ("mult", 5))), False),
         # unions built from smaller unions whose alternatives overlap across nesting levels
         ("any", (("any", (INT, STR)), INT)), ("or", ("or", INT, STR), INT), ("any", (("any", (INT, STR)), ("any", (STR, NONE)))),
